@@ -62,8 +62,11 @@ fn main() {
     for i in 0..n {
         let mut srng = rng.fork();
         let w = match family {
-            "conflict" | "converge" | "hist" | "conflictdiff" | "conflictpatch" | "rollbackc" => {
+            "conflict" | "converge" | "hist" | "conflictdiff" | "conflictpatch" | "rollbackc" | "isoconf" | "richconf" => {
                 use serde_json::json;
+                if family == "isoconf" || family == "richconf" {
+                    amverif::proj::set_rich(true);
+                }
                 let mut prof = Profile::all();
                 prof.texts = false;
                 prof.nested = false;
@@ -77,10 +80,10 @@ fn main() {
                     json!({"fn":"insert","obj":[1,1],"idx":1,"val":{"k":"int","s":"7","n":0,"toks":[]}}),
                 ];
                 let o = scen::GraphOpts {
-                    weights: scen::W_CONFLICT,
+                    weights: if family == "isoconf" { scen::W_ISO } else { scen::W_CONFLICT },
                     twin_start: false,
                     base_calls: base,
-                    readat: if family == "hist" { 12 } else { 0 },
+                    readat: if family == "hist" { 12 } else if family == "richconf" { 6 } else { 0 },
                     reload_before_readat: false,
                     rollback_pct: if family == "rollbackc" { 50 } else { 0 },
                     diffs: if family == "conflictdiff" { 8 } else { 0 },
@@ -145,11 +148,22 @@ fn main() {
                 };
                 scen::graph_scenario(i, &mut srng, &o, family)
             }
-            "doc" | "doctext" | "docinv" | "histdoc" | "reload" | "rollback" | "iso" | "diff" | "patch" => {
+            "doc" | "doctext" | "docinv" | "histdoc" | "reload" | "rollback" | "iso" | "diff" | "patch" | "ids" | "migrate" | "badargs" | "isorich" => {
+                if family == "isorich" {
+                    amverif::proj::set_rich(true);
+                }
                 let text = family == "doctext";
                 let mut prof = Profile::all();
                 if family == "docinv" {
                     prof.invalid_pct = 30;
+                }
+                if family == "badargs" {
+                    prof.marks = true;
+                    prof.texts = true;
+                }
+                if family == "migrate" {
+                    prof.stringy = true;
+                    prof.nkeys = 2;
                 }
                 if text {
                     prof.lists = false;
@@ -164,7 +178,7 @@ fn main() {
                     automerge::TextEncoding::UnicodeCodePoint
                 };
                 let o = scen::GraphOpts {
-                    weights: if family == "reload" { scen::W_RELOAD } else if family == "iso" { scen::W_ISO } else { scen::W_DOC },
+                    weights: if family == "reload" || family == "ids" { scen::W_RELOAD } else if family == "iso" || family == "isorich" { scen::W_ISO } else if family == "migrate" { scen::W_CONFLICT } else { scen::W_DOC },
                     twin_start: false,
                     base_calls: vec![],
                     readat: if family == "histdoc" { 10 } else if family == "reload" { 6 } else { 0 },
